@@ -39,7 +39,8 @@ pub fn hist_strategy(
 }
 
 /// name pools made of component names of /verif/fixture_embed (plus a few names it lacks)
-pub const EMB_POOLS: [[&str; 5]; 6] = [
+pub const EMB_POOLS: [[&str; 5]; 7] = [
+    ["rep", "top.txt", "deep.bin", "reprep", "z"],
     ["a", "ab", "c.txt", "cd", "e.bin"],
     ["dir", "sub", "deep", "only", "empty"],
     ["x", "x.tar", "x.tar.gz", "a.txt", "abc"],
@@ -537,6 +538,14 @@ pub fn run_plan(
         if opts.lowers {
             let calls: Vec<Call> = std::mem::take(&mut *log.lock().unwrap());
             for c in &calls {
+                if c.mutating && c.layer == crate::wrap::OUTSIDE_LAYERS {
+                    return Err(fail(
+                        case,
+                        &trace,
+                        step,
+                        format!("{}: mutating call {}('{}') was issued to the filesystem the layers live in, outside the upper layer's directory", op.render(), c.method, c.path),
+                    ));
+                }
                 if c.mutating && c.layer >= 1 {
                     return Err(fail(
                         case,
